@@ -293,6 +293,64 @@ def run(ctx):
                     bad = 'content-type %r' % (reqs[0][2],)
         if bad:
             ctx.violation('%s: %s' % (op, bad), {'request': line, 'impl': got, 'body': data.decode('latin-1')}, key=key)
+    seq_tie(ctx)
+
+
+def seq_tie(ctx):
+    """Tie of Model/C19Seq.lean / Model/C19Json.lean (driver `authseq.run`, `c19json`) to the real code: whole
+    program runs of the real AuthenticationToken (0-3 tokens with arbitrary JSON-valued attributes, 0-6 calls of
+    authenticate / refresh / validate / invalidate / join / sign_out, replies of any status with result objects,
+    error objects, JSON non-objects, non-JSON, empty bodies, transport failures), every HTTP exchange
+    intercepted at requests.adapters.HTTPAdapter.send -- per call the outcome (return value / exception class,
+    attributes and text) and the request as prepared (method, URL, non-default headers, body, timeout), at the
+    end the five attributes of every token; and random JSON texts (well-formed in all accepted spellings,
+    mutated, malformed) through the real json.loads/json.dumps.  The observation script
+    harness/xcheck/c19seq_xcheck.py <N> <seed> patches HTTPAdapter.send and uuid.uuid4 while it runs: a
+    subprocess, which also bounds the run (timeout -> disagreement).  It prints `request<TAB>expected` lines;
+    all randomness from the seed drawn here from ctx.rng."""
+    import os
+    import subprocess
+    import sys
+    import lib
+    script = os.path.join(os.path.dirname(os.path.dirname(os.path.abspath(__file__))), 'xcheck', 'c19seq_xcheck.py')
+    n = ctx.scale(1500, 20000)
+    seed = ctx.rng.getrandbits(48)
+    env = dict(os.environ, PYCRAFT_REPO=lib.REPO, PYTHONDONTWRITEBYTECODE='1')
+    limit = 120 + n // 50
+    try:
+        p = subprocess.run([sys.executable, script, str(n), str(seed)], capture_output=True, text=True, env=env,
+                           timeout=limit)
+    except subprocess.TimeoutExpired:
+        ctx.disagree('authseq.run: the real-code observation script did not finish in %d s (the code under test hangs '
+                     'or spins)' % limit, [script, n, seed], None, 'timeout')
+        return
+    pairs = [l.split('\t') for l in p.stdout.splitlines()]
+    if p.returncode != 0 or len(pairs) != n or any(len(x) != 2 for x in pairs):
+        ctx.disagree('authseq.run/c19json: the real-code observation script could not run against this tree',
+                     [script, n, seed], None, (p.stderr or p.stdout)[-1500:])
+        return
+    npairs = {}
+    for (req, exp), mo in zip(pairs, ctx.driver.ask([q for q, _ in pairs])):
+        cmd = req.split(' ', 1)[0]
+        ctx.case(('c19seq', req), sample={'request': req[:200], 'impl': exp[:200]} if cmd == 'authseq.run' else None)
+        npairs[cmd] = npairs.get(cmd, 0) + 1
+        if cmd == 'authseq.run':
+            steps = req.split(' ')[2:]
+            ctx.count('seq.steps', len(steps))
+            for st in steps:
+                ctx.count('seq.call.' + st.split(':', 1)[0])
+            if exp.startswith('ok obs='):
+                for ob in exp[len('ok obs='):].split(' final=')[0].split(';'):
+                    if ob != '-':
+                        ctx.count('seq.out.' + ob.split('/')[0].split(':')[0])
+        else:
+            ctx.count('seq.json.' + exp.split(' ')[0])
+        if mo != exp:
+            ctx.disagree('authseq.run vs program runs of the real AuthenticationToken (HTTP intercepted at HTTPAdapter.send)'
+                         if cmd == 'authseq.run' else 'c19json vs json.dumps(json.loads(text))', req[:3000], mo[:1500], exp[:1500])
+    for cmd, k in npairs.items():
+        name = 'c19%s_pairs' % cmd.replace('.', '')
+        ctx.extra[name] = ctx.extra.get(name, 0) + k
 
 
 def replay(ctx, rp):
